@@ -1,2 +1,46 @@
+"""Tree part of C06: TTNS constructors and operations stay in the sector with valid labels (bounded)."""
+import numpy as np
+
+from vk.rtc.harness import run_cases
+from vk.specs import tree as T
+from vk.specs import treeuniv as TU
+from vk.specs import chain as S
+
+
+def worker(case, led):
+    n_nodes, flavour, seed, tier = case
+    su = TU.setup(seed, n_nodes, flavour, max_dim=300)
+    if su is None:
+        return
+    bt, order, model, H, sectors, rng = su["bt"], su["order"], su["model"], su["H"], su["sectors"], su["rng"]
+    for q in sectors:           # every sector incl. empty / completely filled
+        for m in (1, 3):
+            a = TU.random_ttns(bt, q, m, rng)
+            key = (repr(su["shape"]), flavour, seed, str(q), m)
+            if a is None:
+                led.ok("skipped:TTNS.random:sector_not_representable", "TTNS.random", key, nontrivial=False)
+                continue
+            rep = dict(TU.describe_tree(bt), flavour=flavour, seed=seed, sector=q, m_max=m)
+            mask = S.sector_mask(model, q)
+            v = T.dense_ttns(a, order)
+            leak = float(np.abs(v[~mask]).max()) if (~mask).any() else 0.0
+            led.check(not T.qnv_tree_violations(a) and leak == 0.0 and np.all(np.asarray(a.qntot).reshape(-1) == np.asarray(q).reshape(-1)), "post:TTNS.random:in_sector_and_qn_valid",
+                      "TTNS.random", f"leak {leak:.1e}, qntot {a.qntot}, {T.qnv_tree_violations(a)[:1]}", key, {"extreme_sector": bool(mask.sum() == 1)}, rep)
+            r = H.apply(a)
+            r.canonicalise()
+            w = T.dense_ttns(r, order)
+            leak = float(np.abs(w[~mask]).max()) if (~mask).any() else 0.0
+            led.check(not T.qnv_tree_violations(r) and leak <= 1e-12, "post:TTNO.apply+canonicalise:stays_in_sector", "TTNO.apply", f"leak {leak:.1e}", key + ("H",), {}, rep)
+            if len(bt.node_list) >= 2:
+                from renormalizer.utils import CompressConfig, CompressCriteria
+                r.compress_config = CompressConfig(CompressCriteria.fixed, max_bonddim=2)
+                r.compress()
+                w = T.dense_ttns(r, order)
+                leak = float(np.abs(w[~mask]).max()) if (~mask).any() else 0.0
+                led.check(not T.qnv_tree_violations(r) and leak <= 1e-12, "post:TTNS.compress:stays_in_sector", "TTNS.compress", f"leak {leak:.1e}", key + ("compress",), {}, rep)
+
+
 def check(run):
-    pass
+    seeds = list(range(run.seed * 100, run.seed * 100 + (2 if run.tier == "quick" else 8)))
+    cases = [(nn, fl, s, run.tier) for s in seeds for nn in (2, 3, 4, 5) for fl in ("spinqn", "holstein")]
+    run_cases(run, worker, cases)
